@@ -1,5 +1,14 @@
 package main
 
+import (
+	"encoding/json"
+	"errors"
+	"fmt"
+
+	"github.com/cloudwego/gopkg/protocol/thrift"
+	"github.com/cloudwego/gopkg/protocol/thrift/base"
+)
+
 func checkC11(c *Ctx) {
 	c.rule = "MC: for Base/BaseResp/AppEx, every permutation of the known fields x interleaved unknown fields of every type (incl. ids colliding with known ids) x nil/empty/one-entry maps reads back to the written value and consumes the whole input (MC_FastStructs). TRACE: random values (strings of every length class and content, any i32, maps 0..8, nil vs empty map, nil receiver) through BLength/FastWrite/FastWriteNocopy(nil)/FastMarshal (st_write) and FastRead/FastUnmarshal (st_read); all field permutations with 0..2 unknown fields from the typed value generator and repeated fields (st_read on hand-built inputs); TLC computes EncStruct/ReadStruct. BIG COLLECTIONS (Go monitor; the expectation is computed in Go from the data that was encoded, because TLC's map comparison is quadratic): Base / BaseResp with Extra maps of 255..131073 entries: BLength = bytes written = bytes consumed, every entry read back."
 	c.MC("MC_FastStructs.tla", "MC_FastStructs.cfg", 8)
@@ -19,6 +28,65 @@ func checkC12(c *Ctx) {
 	c.MC("MC_ThriftWire.tla", "MC_ThriftWire.cfg", 4)
 	c.TraceCheck(famWireC12, msgCases(c))
 	c.TraceCheck(famStructC12, msgStructCases(c))
+	giantMessageMonitor(c)
+}
+
+// giantMessageMonitor: a message at the head of a buffer of more than 2 GiB (a caller's large receive buffer; the pages
+// are mapped lazily and never touched): header readers and UnmarshalFastMsg answer as they do for a small buffer (Go monitor)
+func giantMessageMonitor(c *Ctx) {
+	var buf []byte
+	func() {
+		defer func() { recover() }()
+		buf = make([]byte, 1<<32+64)
+	}()
+	if buf == nil {
+		c.Assume("giant message buffers skipped: the address space could not be reserved")
+		return
+	}
+	bp := thrift.Binary
+	for _, total := range []int{1<<31 - 1, 1 << 31, 1<<31 + 11, 1<<31 + 12, 1<<31 + 45, 1<<32 - 1, 1 << 32, 1<<32 + 33} {
+		for _, exc := range []bool{false, true} {
+			mt := thrift.TMessageType(thrift.CALL)
+			var body []byte
+			if exc {
+				mt = thrift.EXCEPTION
+				body = bp.AppendFieldStop(bp.AppendI32(bp.AppendFieldBegin(bp.AppendString(bp.AppendFieldBegin(nil, thrift.STRING, 1), "boom"), thrift.I32, 2), 6))
+			} else {
+				body = bp.AppendFieldStop(bp.AppendString(bp.AppendFieldBegin(nil, thrift.STRING, 1), "log"))
+			}
+			msg := append(bp.AppendMessageBegin(nil, "Echo", mt, 77), body...)
+			for i := range buf[:64] {
+				buf[i] = 0
+			}
+			copy(buf, msg)
+			in := buf[:total]
+			bad := guarded(func() string {
+				name, t, seq, l, err := bp.ReadMessageBegin(in)
+				if err != nil || name != "Echo" || t != mt || seq != 77 || l != len(msg)-len(body) {
+					return fmt.Sprintf("ReadMessageBegin on a %d-byte buffer: (%q, %d, %d, %d, %v)", total, name, t, seq, l, err)
+				}
+				dst := base.NewBase()
+				m, s, err := thrift.UnmarshalFastMsg(in, dst)
+				if exc {
+					var ae *thrift.ApplicationException
+					if !errors.As(err, &ae) || ae.TypeID() != 6 || ae.Msg() != "boom" || m != "Echo" || s != 77 {
+						return fmt.Sprintf("UnmarshalFastMsg of an EXCEPTION message in a %d-byte buffer: (%q, %d, %v)", total, m, s, err)
+					}
+				} else if err != nil || m != "Echo" || s != 77 || dst.LogID != "log" {
+					return fmt.Sprintf("UnmarshalFastMsg in a %d-byte buffer: (%q, %d, %v), LogID %q", total, m, s, err, dst.LogID)
+				}
+				return ""
+			})
+			c.AddEvals(2)
+			if bad != "" {
+				c.GoViolation("giantmsg-C12", "msg/giant-buffer", map[string]interface{}{"total": total, "exc": exc}, bad)
+			}
+		}
+	}
+}
+
+func init() {
+	goReplays["giantmsg-C12"] = func(c *Ctx, raw json.RawMessage) { giantMessageMonitor(c) }
 }
 
 func init() {
